@@ -58,8 +58,28 @@ def run(tier):
         infos.append(info)
     behfile = os.path.join(wd, 'relayclient_behaviours.json')
     behav.save(behfile, sets)
+    PR_CFG = """SPECIFICATION Spec
+CONSTANTS
+  NRcpt = 3
+  PerRecipient = %s
+  KF_ReturnError = %s
+  KF_TimeoutOnlyCurrent = %s
+INVARIANT C11_DeliveredImpliesAccepted
+INVARIANT C11_Class
+INVARIANT C11_TotalResult
+INVARIANT C14_Bounded
+CHECK_DEADLOCK FALSE
+"""
+    pipe_jobs = [
+        {'name': 'PipeRelay per recipient, 3 recipients, every child outcome incl. outliving the timeout', 'module': 'PipeRelay',
+         'cfg': flow.write_cfg(wd, 'pr_per.cfg', PR_CFG % ('TRUE', 'FALSE', 'FALSE'))},
+        {'name': 'PipeRelay whole message', 'module': 'PipeRelay', 'cfg': flow.write_cfg(wd, 'pr_one.cfg', PR_CFG % ('FALSE', 'FALSE', 'FALSE'))},
+        {'name': 'deviation KF_ReturnError (D3 as found): TLC must find the failure taken for a delivery', 'module': 'PipeRelay',
+         'cfg': flow.write_cfg(wd, 'pr_kf3.cfg', PR_CFG % ('FALSE', 'TRUE', 'FALSE')), 'expect_violation': ['C11_DeliveredImpliesAccepted', 'C11_TotalResult']},
+        {'name': 'deviation KF_TimeoutOnlyCurrent (seeded change C01b-m2): TLC must find the recipients dropped after a timeout',
+         'module': 'PipeRelay', 'cfg': flow.write_cfg(wd, 'pr_kfto.cfg', PR_CFG % ('TRUE', 'FALSE', 'TRUE')), 'expect_violation': ['C11_DeliveredImpliesAccepted']}]
     return flow.standard(
-        'C11', tier, behav.relayclient_design_jobs(wd, False), 'c11', 'Trace_Relay', 'Trace_Relay.cfg',
+        'C11', tier, behav.relayclient_design_jobs(wd, False) + pipe_jobs, 'c11', 'Trace_Relay', 'Trace_Relay.cfg',
         [canary_false_delivery, canary_class, canary_other, canary_ownclass],
         extras=[{'driver': 'c11m', 'module': 'Trace_Relay', 'cfg': 'Trace_Relay.cfg', 'args': (behfile,)}],
         extra_cov={'model_replay': infos},
